@@ -173,3 +173,45 @@ Proof.
   intros Hw Hr. unfold fxp_invert. destruct (invert_raw_spec fx cx Hw Hr) as (E & Hr' & _).
   rewrite <- E. apply raw_arr_store; assumption.
 Qed.
+
+(* ---------- De Morgan's laws on the n-bit patterns, hence on the codes ---------- *)
+Lemma compl_ldiff n u : 0 <= n -> 0 <= u < 2^n -> 2^n - 1 - u = Z.ldiff (Z.ones n) u.
+Proof.
+  intros Hn Hu. rewrite Z.ones_equiv. replace (2^n - 1 - u) with (Z.pred (2^n) - u) by lia.
+  apply Z.sub_nocarry_ldiff. apply Z.bits_inj'. intros i Hi. rewrite Z.ldiff_spec, Z.bits_0.
+  rewrite <- Z.ones_equiv. destruct (Z_lt_le_dec i n).
+  - rewrite Z.ones_spec_low by lia. apply andb_false_r.
+  - destruct (Z.eq_dec u 0) as [->|Hnz]; [rewrite Z.bits_0; reflexivity|].
+    rewrite Z.bits_above_log2; [reflexivity|lia|]. assert (Z.log2 u < n) by (apply Z.log2_lt_pow2; lia). lia.
+Qed.
+
+Lemma demorgan_patterns n x y : 0 <= n -> 0 <= x < 2^n -> 0 <= y < 2^n ->
+  2^n - 1 - Z.land x y = Z.lor (2^n - 1 - x) (2^n - 1 - y) /\
+  2^n - 1 - Z.lor x y = Z.land (2^n - 1 - x) (2^n - 1 - y).
+Proof.
+  intros Hn Hx Hy.
+  pose proof (bop_range BAnd x y n Hn Hx Hy) as Ba. pose proof (bop_range BOr x y n Hn Hx Hy) as Bo. cbn [z_bop] in Ba, Bo.
+  rewrite !compl_ldiff by assumption. split; apply Z.bits_inj'; intros i Hi;
+    rewrite ?Z.ldiff_spec, ?Z.lor_spec, ?Z.land_spec, ?Z.ldiff_spec;
+    destruct (Z.testbit (Z.ones n) i), (Z.testbit x i), (Z.testbit y i); reflexivity.
+Qed.
+
+Theorem demorgan fx cx cy : 1 <= nw fx -> in_range fx cx -> in_range fx cy ->
+  invert_raw fx (bitwise_raw BAnd fx cx cy) = bitwise_raw BOr fx (invert_raw fx cx) (invert_raw fx cy) /\
+  invert_raw fx (bitwise_raw BOr fx cx cy) = bitwise_raw BAnd fx (invert_raw fx cx) (invert_raw fx cy).
+Proof.
+  intros Hw Hx Hy.
+  assert (HM: 0 < 2^(nw fx)) by (apply pow2_pos; lia).
+  pose proof (Z.mod_pos_bound cx (2^(nw fx)) HM) as Bx. pose proof (Z.mod_pos_bound cy (2^(nw fx)) HM) as By.
+  destruct (invert_raw_spec fx cx Hw Hx) as (_ & _ & Ux). destruct (invert_raw_spec fx cy Hw Hy) as (_ & _ & Uy).
+  destruct (demorgan_patterns (nw fx) _ _ ltac:(lia) Bx By) as (D1 & D2). fold (uimage (nw fx) cx) in D1, D2. fold (uimage (nw fx) cy) in D1, D2.
+  split.
+  - destruct (bitwise_raw_spec BAnd fx cx cy Hw) as (_ & Hr & Hu). cbn [z_bop] in Hu.
+    destruct (invert_raw_spec fx _ Hw Hr) as (E1 & _ & _). rewrite E1, Hu.
+    destruct (bitwise_raw_spec BOr fx (invert_raw fx cx) (invert_raw fx cy) Hw) as (E2 & _ & _). rewrite E2. cbn [z_bop].
+    rewrite Ux, Uy, D1. reflexivity.
+  - destruct (bitwise_raw_spec BOr fx cx cy Hw) as (_ & Hr & Hu). cbn [z_bop] in Hu.
+    destruct (invert_raw_spec fx _ Hw Hr) as (E1 & _ & _). rewrite E1, Hu.
+    destruct (bitwise_raw_spec BAnd fx (invert_raw fx cx) (invert_raw fx cy) Hw) as (E2 & _ & _). rewrite E2. cbn [z_bop].
+    rewrite Ux, Uy, D2. reflexivity.
+Qed.
